@@ -5,5 +5,7 @@ CONSTANTS
   MaxOps = 12
   Renewals = {TRUE, FALSE}
   SessLens = {"short", "long"}
+  Forms = {"none", "token", "bearer", "phc", "basic", "jwt"}
+  Mgmt = {"token", "user", "session"}
 PROPERTIES OnlyCurrentAuthenticates SessionStillUnexpired NeverForInactiveUser UnknownNeverHeld CurrentIsHeld CurrentAuthenticates TokenGoodIffActiveAtBegin
 CHECK_DEADLOCK FALSE
